@@ -57,6 +57,23 @@ type Macro struct {
 	Params []Param `json:"params"`
 	B      []*Stmt `json:"b"`
 	R      *Expr   `json:"r"`
+	// Inline: when every statement of B is a declaration, the quoted body is printed as ONE expression
+	// statement, `(((v1 := e1) - v1) + ... + R)`, which means the same as `v1 := e1; ...; R` for integers
+	// (the expansion is then a single expression that declares locals)
+	Inline bool `json:"inline,omitempty"`
+}
+
+// inlineable reports whether the macro body can be printed in the single-expression form.
+func (m *Macro) inlineable() bool {
+	if !m.Inline || len(m.B) == 0 {
+		return false
+	}
+	for _, s := range m.B {
+		if s.K != "decl" {
+			return false
+		}
+	}
+	return true
 }
 
 // ProbeIn describes the inward-leak variant: a statement using a name that the
@@ -368,6 +385,20 @@ func (p *printer) macroDefs() {
 		p.ln("quote")
 		p.ind++
 		nc := nctx{m: m}
+		if m.inlineable() && !(p.probeIn != nil && p.probeIn.M == i) {
+			txt := p.expr(m.R, nc)
+			for k := len(m.B) - 1; k >= 0; k-- {
+				d := m.B[k]
+				txt = fmt.Sprintf("(((%s := %s) - %s) + %s)", d.V+nc.suffix, p.expr(d.E, nc), d.V+nc.suffix, txt)
+			}
+			p.ln("%s", txt)
+			p.ind--
+			p.ln("end")
+			p.ind--
+			p.ln("end")
+			p.ln("")
+			continue
+		}
 		p.stmts(m.B, nc, false)
 		if p.probeIn != nil && p.probeIn.M == i && p.probeIn.Pos >= len(m.B) {
 			p.inProbe()
